@@ -39,6 +39,11 @@ REQUIRED = [
     "DaeVerif.C18.Props.real_set_bounded",
     "DaeVerif.C18.Props.genuine_name_has_witness",
     "DaeVerif.C18.Props.negative_cached_name_not_used",
+    "DaeVerif.C18.Props.reroute_rechooses_target",
+    "DaeVerif.C18.Props.reroute_failure_no_dial",
+    "DaeVerif.C18.Props.unknown_name_requests_probe",
+    "DaeVerif.C18.Props.probe_outcomes",
+    "DaeVerif.C18.Props.second_probe_is_noop",
 ]
 
 
@@ -121,7 +126,25 @@ def run(ctx):
         ctx.report(f"implementation differs from proved model at line {ln}: op `{op}` impl `{im}` model `{mo}`",
                    {"stream": "c18", "line": ln, "op": op, "impl": im, "model": mo, "episode": prefix[-60:],
                     "replay": "VERIF_SEED=%d ./check C18 %s" % (ctx.seed, ctx.tier)})
+    # config wiring: the mode parsed from global.dial_mode is the one stored in the control plane
+    # (the `cfg` op executes text -> config_parser.Parse -> config.New -> ParseDialMode; the last hop,
+    # a struct literal in newControlPlaneWithContextOptions, is checked in the source, rename-tolerant)
+    mv = re.search(r"(\w+),\s*err\s*:=\s*consts\.ParseDialMode\(global\.DialMode\)", src)
+    if not mv or not re.search(r"\bdialMode:\s+" + re.escape(mv.group(1)) + r"\s*,", src):
+        ctx.report("dial_mode wiring changed: control_plane.go no longer stores consts.ParseDialMode(global.DialMode) in "
+                   "controlPlaneGenerationState.dialMode", {"file": "control/control_plane.go"})
+
     stats = json.load(open(os.path.join(ctx.out, "c18.stats.json")))
+    # generator floors (quick-tier values / ~4): below a floor the run proves nothing about that row -> exit 2
+    FLOORS = {"cdt.domain-row.knowledge": 150, "cdt.domain-row.verified": 60, "cdt.domain-row.negative-cached": 15,
+              "cdt.domain-row.unknown": 400, "cdt.domain-row.ip-like": 100, "cdt.mode.ip": 400, "cdt.mode.domain+": 400,
+              "cdt.mode.domain++": 400, "cdt.outbound.reserved": 800, "op.cdt2.in-flight": 50, "op.janitor.evicted": 50,
+              "op.janitor.lru-evicted": 10, "op.cfg": 40, "dial.retried": 200, "dial.retried.different-decision": 10,
+              "dial.with-metadata": 400, "dial.rerouted": 300, "op.dnsresp.nodata": 100, "op.dnsresp.error-rcode": 400,
+              "op.rmf": 300, "op.evict": 200, "op.reload": 60, "op.close": 60, "probe.timeout-scripted": 100,
+              "op.sat": 1, "op.has.true": 200, "cdt.probe": 300}
+    low = {k: (stats["counters"].get(k, 0), v) for k, v in FLOORS.items() if stats["counters"].get(k, 0) < v}
+    ctx.cov["floors"] = FLOORS
     ctx.samples = (stats["samples"] or []) + [o for o in ops_l if o.startswith(("cdt", "dial"))][:6] + ops_l[300:303]
     ctx.cov["input_distribution"] = stats["counters"]
     ctx.cov["decisions"] = n_decisions
@@ -130,6 +153,10 @@ def run(ctx):
         "NormalizeDomain / CanonicalName / the DNS cache are ASCII (bytes >= 0x80 only on the pure string paths)",
         "single-threaded histories: concurrency of the caches (sync.Map, RWMutex, singleflight) is not explored",
     ]
+    if low and not ctx.violations:
+        ctx.say("GENERATOR-BELOW-FLOOR", json.dumps(low))
+        ctx.finish(rule="generator below floor", evaluations=len(ops_l), distinct=len(distinct))
+        return 2
     return ctx.finish(rule="one evaluation = one op line compared between real code and model (pure string functions, state "
                            "transitions, ChooseDialTarget and routeDial decisions); distinct_nontrivial counts distinct "
                            "cdt/dial op lines (they include the destination and the probe script, so this is NOT a count of table cells; "
